@@ -473,6 +473,111 @@ def gens():
     return out
 
 
+# ----------------------------------------------------------------------------------------
+# data flow (C07): programs for spec/Data.tla.  Two steps; `a`, `o` declared by the workflow
+# (inputs), `b` by step s1, `c` by step s2; `u` is declared nowhere, `__p` is private.
+
+
+def d_writers(scope):
+    """(label, engine act(s), ops) of the writers that can stand in a step"""
+    own = {"s1": "b", "s2": "c"}[scope]
+    out = []
+    n = 0
+
+    def nxt():
+        nonlocal n
+        n += 1
+        return f"{scope}w{n}"
+
+    for name in ("a", own, "u"):
+        out.append((f"set_{name}", [{"uses": "acts.transform.set", "params": {name: 5}}],
+                    [{"k": "w", "scope": scope, "n": name, "v": 5}]))
+        out.append((f"codeset_{name}", [{"uses": "acts.transform.code", "params": f'$set("{name}", 6); return null;'}],
+                    [{"k": "w", "scope": scope, "n": name, "v": 6}]))
+        out.append((f"coderet_{name}", [{"uses": "acts.transform.code", "params": f'return {{ {name}: 7 }};'}],
+                    [{"k": "w", "scope": scope, "n": name, "v": 7}]))
+    out.append(("setx_a_from_" + own, [{"uses": "acts.transform.set", "params": {"a": "{{ " + own + " + 10 }}"}}],
+                [{"k": "wx", "scope": scope, "n": "a", "m": own, "d": 10}]))
+    out.append(("setx_" + own + "_from_a", [{"uses": "acts.transform.set", "params": {own: "{{ a + 20 }}"}}],
+                [{"k": "wx", "scope": scope, "n": own, "m": "a", "d": 20}]))
+    # client actions on an interrupt: with and without declared outputs, extra options, a private key
+    out.append(("act_plain_a", [{"uses": "acts.core.irq", "key": "KEY"}],
+                [{"k": "act", "scope": scope, "key": "KEY", "opts": [["a", 8]], "outs": []}]))
+    out.append(("act_plain_own_u", [{"uses": "acts.core.irq", "key": "KEY"}],
+                [{"k": "act", "scope": scope, "key": "KEY", "opts": [[own, 8], ["u", 9]], "outs": []}]))
+    out.append(("act_declared_a_extra_o", [{"uses": "acts.core.irq", "key": "KEY", "outputs": {"a": None}}],
+                [{"k": "act", "scope": scope, "key": "KEY", "opts": [["a", 8], ["o", 99]], "outs": ["a"]}]))
+    out.append(("act_declared_own_extra_a", [{"uses": "acts.core.irq", "key": "KEY", "outputs": {own: None}}],
+                [{"k": "act", "scope": scope, "key": "KEY", "opts": [[own, 8], ["a", 99]], "outs": [own]}]))
+    out.append(("act_private", [{"uses": "acts.core.irq", "key": "KEY"}],
+                [{"k": "act", "scope": scope, "key": "KEY", "opts": [["__p", 4], ["o", 3]], "outs": []}]))
+    return out
+
+
+def dataflow():
+    out = []
+    w1s, w2s = d_writers("s1"), d_writers("s2")
+    combos = []
+    for i, w1 in enumerate(w1s):
+        combos.append(([w1], [w2s[(i * 5 + 3) % len(w2s)]]))
+        combos.append(([w1], [w2s[(i * 7 + 1) % len(w2s)]]))
+    for j, w2 in enumerate(w2s):
+        combos.append(([w1s[(j * 3 + 2) % len(w1s)]], [w2]))
+
+    def written(w):
+        ns = set()
+        for o in w[2]:
+            if o["k"] in ("w", "wx"):
+                ns.add(o["n"])
+            else:
+                ns |= {kv[0] for kv in o["opts"]}
+        return ns
+    # two writers in one step, the second writing a name the first wrote (last writer wins)
+    for ws, other in ((w1s, w2s), (w2s, w1s)):
+        for i, x in enumerate(ws):
+            for j, y in enumerate(ws):
+                if i != j and written(x) & written(y) and (i + 2 * j) % 3 != 1:
+                    pair = ([x, y], [other[(i + j) % len(other)]])
+                    combos.append(pair if ws is w1s else (pair[1], pair[0]))
+    seen = set()
+    for g1, g2 in combos:
+        name = "+".join(w[0] for w in g1) + "__" + "+".join(w[0] for w in g2)
+        if name in seen:
+            continue
+        seen.add(name)
+
+        def acts_of(group, scope):
+            acts, ops = [], []
+            for idx, w in enumerate(group, 1):
+                key = f"k_{scope}_{idx}"
+                for a in w[1]:
+                    a = json.loads(json.dumps(a).replace("KEY", key))
+                    a["id"] = f"{scope}a{idx}"
+                    acts.append(a)
+                for o in w[2]:
+                    o = json.loads(json.dumps(o).replace("KEY", key))
+                    o["aid"] = f"{scope}a{idx}"
+                    ops.append(o)
+            return acts, ops
+        a1, o1 = acts_of(g1, "s1")
+        a2, o2 = acts_of(g2, "s2")
+        names = ["a", "o", "b", "c"]
+        rd = lambda n: "{{ typeof " + n + " === 'undefined' ? -1 : " + n + " }}"
+        r1 = {"id": "s1r", "uses": "acts.core.irq", "key": "r_s1", "inputs": {f"r_{n}": rd(n) for n in names}}
+        r2 = {"id": "s2r", "uses": "acts.core.irq", "key": "r_s2", "inputs": {f"r_{n}": rd(n) for n in names}}
+        wf = {"id": "d", "name": "d", "inputs": {"a": 1, "o": 0}, "outputs": {"a": None, "o": None},
+              "steps": [{"id": "s1", "inputs": {"b": 2}, "acts": a1 + [r1]},
+                        {"id": "s2", "inputs": {"c": 3}, "acts": a2 + [r2]}]}
+        ops = o1 + [{"k": "r", "scope": "s1", "key": "r_s1", "names": names}] + o2 + [{"k": "r", "scope": "s2", "key": "r_s2", "names": names}]
+        full = []
+        for o in ops:      # uniform records for TLC
+            full.append({"k": o["k"], "scope": o["scope"], "n": o.get("n", "nil"), "v": o.get("v", 0), "m": o.get("m", "nil"),
+                         "d": o.get("d", 0), "key": o.get("key", "nil"), "opts": o.get("opts", []), "outs": o.get("outs", []),
+                         "names": o.get("names", []), "aid": o.get("aid", "nil")})
+        out.append({"name": name, "dprog": {"ops": full}, "model": json.dumps(wf)})
+    return out
+
+
 def loops():
     """backward `next` jumps (second instances of tasks); not in any tier yet, see DESIGN.md"""
     out = []
@@ -784,6 +889,7 @@ FAMILIES = {
     "timedunits": lambda a: timedunits(),
     "subflow": lambda a: subflow(),
     "gens": lambda a: gens(),
+    "dataflow": lambda a: dataflow(),
     "multi": lambda a: multi(),
     "timedsmall": lambda a: [ln for ln in timed() if ln["name"] not in ("t_branches", "t_two_acts", "t_act_two_rules")],
     # the hand-written models without parallel interrupt branches (cheap with a larger client budget)
